@@ -357,14 +357,23 @@ func dr(args map[string]string) error {
 			case c < 96:
 				ev["ev"] = "SwitchMode"
 				nc := conf
+				ev["mode_before"] = rep.GetReplicationStatus().GetMode().String()
 				if mode == "dr" {
 					nc.ReplicationMode = "majority"
-					mode = "majority"
-				} else {
-					mode = "dr"
+				} else if rng.Intn(3) == 0 {
+					// the switch back persists sync_recover first: that write (or the id allocation) fails
+					fk.Arm(1, false)
+					ev["fail"] = true
 				}
-				if err := rep.UpdateConfig(nc); err != nil {
-					ev["err"] = true
+				err := rep.UpdateConfig(nc)
+				ev["writes"] = fk.Writes()
+				fk.Arm(0, false)
+				ev["err"] = err != nil
+				if err == nil {
+					mode = nc.ReplicationMode
+					if mode != "majority" {
+						mode = "dr"
+					}
 				}
 			default:
 				continue
